@@ -1,4 +1,5 @@
 import EdpVerif.Lemmas.ProcsLate
+import EdpVerif.Lemmas.Behaviours
 /-
 C18 — local processes: ordered exactly-once delivery, exit notices, name lifecycle.
 Property theorems only; the model is EdpVerif/Impl/Procs.lean (small-step semantics of the registry, the mailboxes, the
@@ -648,5 +649,205 @@ theorem C18_gen_event_call_answered_once (frm : Option PidF) (body : Term) (cr :
   · intro fp r hid req h
     unfold geReplies
     rw [h]
+
+/-! ## E. behaviours, function by function
+
+Model: `Impl/Behaviours.lean` (`gsHandle` / `gsRun`: `GenServerProcess::handle_message` inside the loop of `spawn_process`;
+`geHandle` / `geRun`, `notify`, `callHandler`, `addHandler`, `deleteHandler`: `GenEventManager`). The user's callbacks are
+arbitrary: their answers are inputs (`GsStep.ans` per message; the oracle `ω uid k` per handler instance and callback), and so
+is the registry at the moment a message is handled (`Env`). `Spec/Behaviours.lean` says what is owed, from the OTP shapes.
+The code is the repaired one: a reply that cannot be delivered is dropped (before, it ended the behaviour process). -/
+end Edp.Props.C18
+
+namespace Edp.Props.C18
+open Edp Edp.Impl.Beh Edp.Spec.Beh
+
+/-- the tags, arities, chain order, reply layout and error handling of the two `handle_message` functions, as extracted from
+gen_server.rs / gen_event.rs on this run, are what the model transcribes -/
+theorem C18_behaviour_tables_are_the_source :
+    Gen.GS_DISPATCH = [("call", 3), ("cast", 2)] ∧ Gen.GS_MIN_ARITY = 2 ∧ Gen.GS_FROM_ARITY = 2 ∧
+    Gen.GS_REPLY_REF_FIRST = true ∧ Gen.GS_REPLY_ERRORS_PROPAGATED = 0 ∧
+    Gen.GE_DISPATCH = [("notify", 2), ("sync_notify", 2), ("call", 4), ("which_handlers", 2)] ∧
+    Gen.GE_REPLY_ERRORS_PROPAGATED = 0 := by decide
+
+/-- the atoms in the source are the protocol's: `'$gen_call'`, `'$gen_cast'` of OTP's gen / gen_server, the event manager's own
+tags, `ok`, `error`, `normal` -/
+theorem C18_behaviour_tags_are_the_protocols :
+    Gen.GS_CALL_TAG = tagGenCall ∧ Gen.GS_CAST_TAG = tagGenCast ∧ Gen.GE_CALL_TAG = tagGenCall ∧
+    Gen.GE_NOTIFY_TAG = tagNotify ∧ Gen.GE_SYNC_NOTIFY_TAG = tagSyncNotify ∧ Gen.GE_WHICH_TAG = tagWhich ∧
+    Gen.GE_ACK_ATOM = atomOk ∧ Gen.GE_CALL_ERROR_ATOM = atomError ∧ Gen.GS_TERMINATE_REASON = atomNormal := by decide
+
+/-- **exactly once, to the caller, with the call's reference, in the order the calls were handled** — for every sequence of
+messages of every kind, every behaviour of the callbacks and every registry at every step: what a `GenServerProcess` puts into
+mailboxes over its whole life is exactly the list of replies the Spec says it owes: one `{Ref, Reply}` to `Pid` for each
+handled `{'$gen_call', {Pid, Ref}, Request}` whose callback answered `Reply` while `Pid` could be reached, in handling order;
+nothing for casts, plain messages, malformed calls, `NoReply`, failed callbacks; nothing after the server has ended -/
+theorem C18_gen_server_answers_exactly_what_is_owed (steps : List GsStep) :
+    sendsOf (gsRun steps).1 = expected (steps.map toSpec) :=
+  gsRun_sends steps
+
+example :
+    let p : PidF := ⟨[110], 1, 0, 1, none⟩
+    let call : Term := .tuple [.atom tagGenCall, .tuple [.pid p, .ref [110] 1 [7] none], .int 5]
+    sendsOf (gsRun [⟨.regular none call, .reply (.int 6), fun _ => .live⟩]).1 = [(p, .tuple [.ref [110] 1 [7] none, .int 6])] := by
+  rfl
+
+/-- the exact guard of "answered": a well-formed call is answered — once, `{Ref, Reply}`, to its `Pid` — precisely when its
+callback returns a reply and the caller is in the registry with an open mailbox; otherwise nothing is sent to anybody -/
+theorem C18_gen_call_answered_iff_reply_and_reachable (f : Option PidF) (body : Term) (p : PidF) (r q : Term)
+    (ans : GsAns) (env : Env) (h : callOf body = some (p, r, q)) :
+    sendsOf (gsHandle ⟨.regular f body, ans, env⟩).1 =
+      match ans with
+      | .reply v => if env p = .live then [(p, .tuple [r, v])] else []
+      | _ => [] := by
+  rw [gsHandle_sends]
+  simp only [toSpec, toSpecMsg, owed, h]
+  cases ans with
+  | reply v =>
+    simp only [toSpecAns, reachB]
+    by_cases hl : env p = .live <;> simp [hl]
+  | noReply => rfl
+  | err => rfl
+
+example : callOf (.tuple [.atom tagGenCall, .tuple [.pid ⟨[110], 1, 0, 1, none⟩, .ref [110] 1 [7] none], .int 5]) =
+    some (⟨[110], 1, 0, 1, none⟩, .ref [110] 1 [7] none, .int 5) := by rfl
+
+/-- every message causes exactly the callback its shape says: a well-formed call `handle_call(Request, Pid)`; anything that
+is not a well-formed call — wrong arity, a `from` that is not `{Pid, Reference}` (the alias form `{Pid, [alias|Ref]}` of OTP 24
+included), a tag that is not the atom — `handle_cast` for a cast and otherwise `handle_info` with the WHOLE message; an `Exit`
+the server's `terminate`; `Control` and the rest nothing. No message shape panics or ends the process. -/
+theorem C18_gen_server_one_callback_per_message (s : GsStep) :
+    cbsOf (gsHandle s).1 =
+      match s.msg with
+      | .regular _ body =>
+        (match callOf body with
+         | some (p, _, q) => [Cb.gsCall q p]
+         | none => match gsDispatchB body with
+           | .cast q => [Cb.gsCast q]
+           | _ => [Cb.gsInfo body])
+      | .exit r => [Cb.gsTerminate r]
+      | _ => [] :=
+  gsHandle_cbs s
+
+/-- the alias form is not a call here: it is handed to `handle_info` and never answered (recorded in notes/C18.md) -/
+example :
+    let p : PidF := ⟨[110], 1, 0, 1, none⟩
+    let body : Term := .tuple [.atom tagGenCall, .tuple [.pid p, .ilist [.atom [97]] (.ref [110] 1 [7] none)], .int 5]
+    gsRun [⟨.regular none body, .reply (.int 6), fun _ => .live⟩] = ([.cb (.gsInfo body)], true) := by
+  rfl
+
+/-- **the server ends only when a callback fails**: over every history, the process is still in its loop exactly when no
+handled message's callback returned `Err` — no shape of message, no unreachable caller, no closed mailbox ends it -/
+theorem C18_gen_server_ends_only_on_a_failing_callback (steps : List GsStep) :
+    (gsRun steps).2 = survives (steps.map toSpec) :=
+  gsRun_alive steps
+
+/-- a reply that cannot be delivered (the caller is registered but its mailbox has lost its receiver, or it is not
+registered at all) is dropped: `handle_message` returns Ok, nothing is sent -/
+theorem C18_gen_server_undeliverable_reply_is_harmless (f : Option PidF) (body : Term) (v : Term) (env : Env) :
+    (gsHandle ⟨.regular f body, .reply v, env⟩).2 = true ∧
+    ∀ p r q, callOf body = some (p, r, q) → env p ≠ .live → sendsOf (gsHandle ⟨.regular f body, .reply v, env⟩).1 = [] := by
+  constructor
+  · rw [gsHandle_ok]; rfl
+  · intro p r q h hl
+    rw [C18_gen_call_answered_iff_reply_and_reachable f body p r q _ env h]
+    simp [hl]
+
+example : (fun (_ : PidF) => Reach.closed) ⟨[110], 1, 0, 1, none⟩ ≠ Reach.live := by decide
+
+/-- replies keep the order of handling across any split of the history: what is sent over `a ++ b` is what is sent over `a`
+followed by what is sent over `b`, as long as the server survives `a` -/
+theorem C18_gen_server_replies_in_handling_order (a b : List GsStep) (h : (gsRun a).2 = true) :
+    sendsOf (gsRun (a ++ b)).1 = sendsOf (gsRun a).1 ++ sendsOf (gsRun b).1 := by
+  induction a with
+  | nil => rfl
+  | cons s rest ih =>
+    have key : ∀ l, gsRun (s :: l) = (match gsHandle s with
+        | (o, true) => (o ++ (gsRun l).1, (gsRun l).2)
+        | (o, false) => (o ++ [.cb (.gsTerminate (atomB Gen.GS_TERMINATE_REASON))], false)) := fun l => rfl
+    rw [List.cons_append, key (rest ++ b), key rest]
+    rw [key rest] at h
+    cases hh : gsHandle s with
+    | mk o ok =>
+      rw [hh] at h
+      cases ok with
+      | true =>
+        simp only at h ⊢
+        rw [sendsOf_append, sendsOf_append, ih h, List.append_assoc]
+      | false => simp at h
+
+/-- **the event manager answers exactly what is owed**: over every sequence of messages, every state of the handler map and
+every behaviour of the handlers, the messages it sends are, in order and in form, one `{Ref, _}` to `Pid` for every
+`{'$gen_call', {Pid, Ref}, HandlerId, Request}` (whether the handler exists, replies, removes itself, swaps or fails) and every
+`{'$gen_which_handlers', {Pid, Ref}}` whose `Pid` can be reached, one `ok` for every `{'$gen_sync_notify', Event}` whose message
+names a reachable sender — and nothing else: `notify`, plain messages and malformed calls are never answered -/
+theorem C18_event_manager_answers_exactly_what_is_owed (ω : Oracle) (st : GeSt) (steps : List GeStep) :
+    (sendsOf (geRun ω st steps).2).map shape = geExpected (steps.map toSpecEv) :=
+  geRun_sends ω steps st
+
+example :
+    let p : PidF := ⟨[110], 1, 0, 1, none⟩
+    let call : Term := .tuple [.atom tagGenCall, .tuple [.pid p, .ref [110] 1 [7] none], .atom [104], .int 5]
+    sendsOf (geRun (fun _ _ => {}) {} [⟨.regular none call, fun _ => .live⟩]).2 =
+      [(p, .tuple [.ref [110] 1 [7] none, .atom atomError])] := by
+  rfl
+
+/-- no message and no handler behaviour ends the event manager: `handle_message` has no failing path, so every message of a
+history is handled, whatever came before it -/
+theorem C18_event_manager_handles_every_message (ω : Oracle) (a b : List GeStep) (st : GeSt) :
+    (geRun ω st (a ++ b)).2 = (geRun ω st a).2 ++ (geRun ω (geRun ω st a).1 b).2 ∧
+    (geRun ω st (a ++ b)).1 = (geRun ω (geRun ω st a).1 b).1 := by
+  induction a generalizing st with
+  | nil => exact ⟨rfl, rfl⟩
+  | cons s rest ih =>
+    obtain ⟨h1, h2⟩ := ih (geHandle ω st s).1
+    simp only [List.cons_append, geRun]
+    exact ⟨by rw [h1, List.append_assoc], h2⟩
+
+/-- **a notify reaches every installed handler exactly once**, in the order of the map (`HashMap`: not the order of
+installation; OTP does not promise one either), whatever the handlers answer — also those that remove themselves, swap or
+fail during this very event -/
+theorem C18_notify_reaches_every_installed_handler_once (ω : Oracle) (st : GeSt) (ev : Term) :
+    eventCbs (notify ω st ev).2 = st.hs.map fun e => (e.uid, ev) :=
+  eventCbs_notify ω st ev
+
+example : eventCbs (notify (fun _ _ => { kind := .remove }) ⟨[⟨.int 1, 7, .int 1, 1⟩, ⟨.int 2, 8, .int 2, 1⟩]⟩ (.int 0)).2 =
+    [(7, .int 0), (8, .int 0)] := by rfl
+
+/-- **a call goes to exactly the handler stored under the named id** (one `handle_call`, for that instance, with that
+request), or to nobody when there is none — and the value it is answered with is the handler's reply, or `error` when there is
+no such handler, its callback failed, or the handler it swapped in failed to initialise -/
+theorem C18_event_call_goes_to_the_named_handler (ω : Oracle) (st : GeSt) (key req : Term) :
+    callCbs (callHandler ω st key req).2.1 =
+      (match findKey key st.hs with
+       | some e => [(e.uid, req)]
+       | none => []) ∧
+    (callHandler ω st key req).2.2 =
+      (match findKey key st.hs with
+       | none => none
+       | some e =>
+         match (ω e.uid e.n).kind with
+         | .ok => some (ω e.uid e.n).val
+         | .remove => some (ω e.uid e.n).val
+         | .err => none
+         | .swap => match (ω (ω e.uid e.n).newUid 0).kind with
+           | .err => none
+           | _ => some (ω e.uid e.n).val) := by
+  refine ⟨callCbs_callHandler ω st key req, ?_⟩
+  unfold callHandler
+  cases hf : findKey key st.hs with
+  | none => rfl
+  | some e =>
+    simp only
+    cases hk : (ω e.uid e.n).kind with
+    | ok => rfl
+    | remove => rfl
+    | err => rfl
+    | swap => cases hi : (ω (ω e.uid e.n).newUid 0).kind <;> simp
+
+example (ω : Oracle) (e : Entry) (r : List Entry) (req : Term) (h : (e.key == e.key) = true) :
+    callCbs (callHandler ω ⟨e :: r⟩ e.key req).2.1 = [(e.uid, req)] := by
+  rw [(C18_event_call_goes_to_the_named_handler ω ⟨e :: r⟩ e.key req).1]
+  simp [findKey, h]
 
 end Edp.Props.C18
